@@ -8,7 +8,9 @@ REPO=${VSIM_REPO:-/repo}; VERIF=${VSIM_VERIF:-/verif}
 cd $REPO || exit 2
 if [ -n "$(git status --porcelain)" ]; then echo "$REPO not clean"; exit 2; fi
 git apply "$patch" || { echo "patch does not apply"; exit 2; }
-trap 'git -C $REPO checkout -- . ; git -C $REPO clean -fdq' EXIT
+# the evidence files describe runs against the unchanged tree: keep them out of the way
+bak=$(mktemp -d); cp -r $VERIF/evidence $bak/ 2>/dev/null
+trap 'git -C $REPO checkout -- . ; git -C $REPO clean -fdq; rm -rf $VERIF/evidence; mv $bak/evidence $VERIF/evidence 2>/dev/null; rmdir $bak 2>/dev/null' EXIT
 cd $VERIF
 for p in "$@"; do
   VERIF_BUDGET_S=$budget ./bin/vsim check $p > /tmp/try_$p.log 2>&1
